@@ -61,7 +61,7 @@ func rootReceiver(v ssa.Value, fn *ssa.Function, depth int) bool {
 }
 
 func rootGlobal(v ssa.Value, depth int) *ssa.Global {
-	if depth > 8 {
+	if depth > 10 {
 		return nil
 	}
 	switch v := v.(type) {
@@ -71,10 +71,148 @@ func rootGlobal(v ssa.Value, depth int) *ssa.Global {
 		return rootGlobal(v.X, depth+1)
 	case *ssa.IndexAddr:
 		return rootGlobal(v.X, depth+1)
+	case *ssa.Slice:
+		return rootGlobal(v.X, depth+1)
+	case *ssa.ChangeType:
+		return rootGlobal(v.X, depth+1)
+	case *ssa.MakeInterface:
+		return rootGlobal(v.X, depth+1)
+	case *ssa.Phi:
+		for _, e := range v.Edges {
+			if g := rootGlobal(e, depth+1); g != nil {
+				return g
+			}
+		}
 	case *ssa.UnOp:
-		return nil // a loaded value is no longer the variable itself
+		if v.Op.String() != "*" {
+			return nil
+		}
+		// the pointer, slice or map kept in a package-level variable still leads to shared memory
+		if g, ok := v.X.(*ssa.Global); ok {
+			switch types.Unalias(v.Type()).Underlying().(type) {
+			case *types.Pointer, *types.Slice, *types.Map:
+				return g
+			}
+			return nil
+		}
+		// a local variable (spill slot in naive form) that was assigned such an address
+		if a, ok := v.X.(*ssa.Alloc); ok && a.Referrers() != nil {
+			for _, r := range *a.Referrers() {
+				if st, ok := r.(*ssa.Store); ok && st.Addr == a {
+					if g := rootGlobal(st.Val, depth+1); g != nil {
+						return g
+					}
+				}
+			}
+		}
 	}
 	return nil
+}
+
+// rootParam: the index of the parameter whose pointee (or backing array, or map) the address v lies in, or -1.
+func rootParam(v ssa.Value, fn *ssa.Function, depth int) int {
+	if depth > 10 {
+		return -1
+	}
+	switch v := v.(type) {
+	case *ssa.Parameter:
+		for i, p := range fn.Params {
+			if p == v {
+				switch types.Unalias(v.Type()).Underlying().(type) {
+				case *types.Pointer, *types.Slice, *types.Map, *types.Interface:
+					return i
+				}
+			}
+		}
+	case *ssa.FieldAddr:
+		return rootParam(v.X, fn, depth+1)
+	case *ssa.IndexAddr:
+		return rootParam(v.X, fn, depth+1)
+	case *ssa.Slice:
+		return rootParam(v.X, fn, depth+1)
+	case *ssa.ChangeType:
+		return rootParam(v.X, fn, depth+1)
+	case *ssa.MakeInterface:
+		return rootParam(v.X, fn, depth+1)
+	case *ssa.UnOp:
+		if v.Op.String() != "*" {
+			return -1
+		}
+		if a, ok := v.X.(*ssa.Alloc); ok && a.Referrers() != nil {
+			for _, r := range *a.Referrers() {
+				if st, ok := r.(*ssa.Store); ok && st.Addr == a {
+					if i := rootParam(st.Val, fn, depth+1); i >= 0 {
+						return i
+					}
+				}
+			}
+		}
+	}
+	return -1
+}
+
+// externalWriters: functions outside the library that write through the given argument positions.
+var externalWriters = map[string][]int{
+	"encoding/json.Unmarshal": {1}, "github.com/mitchellh/mapstructure.Decode": {1}, "github.com/mitchellh/mapstructure.WeakDecode": {1},
+	"sort.Float64s": {0}, "sort.Ints": {0}, "sort.Strings": {0}, "sort.Slice": {0}, "sort.SliceStable": {0}, "sort.Sort": {0}, "sort.Stable": {0},
+	"math/rand.Shuffle": {},
+}
+
+// writerSummaries: per library function, the parameter positions it writes through (directly, or by handing them to a writer); fixpoint.
+func writerSummaries(all []*ssa.Function) map[*ssa.Function]map[int]bool {
+	sum := map[*ssa.Function]map[int]bool{}
+	mark := func(fn *ssa.Function, i int) bool {
+		if i < 0 {
+			return false
+		}
+		if sum[fn] == nil {
+			sum[fn] = map[int]bool{}
+		}
+		if sum[fn][i] {
+			return false
+		}
+		sum[fn][i] = true
+		return true
+	}
+	for changed := true; changed; {
+		changed = false
+		for _, fn := range all {
+			for _, b := range fn.Blocks {
+				for _, ins := range b.Instrs {
+					switch ins := ins.(type) {
+					case *ssa.Store:
+						if _, isSlot := ins.Addr.(*ssa.Alloc); !isSlot && mark(fn, rootParam(ins.Addr, fn, 0)) {
+							changed = true
+						}
+					case *ssa.MapUpdate:
+						if mark(fn, rootParam(ins.Map, fn, 0)) {
+							changed = true
+						}
+					case ssa.CallInstruction:
+						c := ins.Common()
+						callee := c.StaticCallee()
+						if callee == nil {
+							continue
+						}
+						var pos []int
+						if ws, ok := externalWriters[callee.String()]; ok {
+							pos = ws
+						} else {
+							for i := range sum[callee] {
+								pos = append(pos, i)
+							}
+						}
+						for _, i := range pos {
+							if i < len(c.Args) && mark(fn, rootParam(c.Args[i], fn, 0)) {
+								changed = true
+							}
+						}
+					}
+				}
+			}
+		}
+	}
+	return sum
 }
 
 var forbiddenCalls = map[string]string{
@@ -118,6 +256,7 @@ func (w *World) sweep() (scanned int, findings []sweepFinding) {
 		add(fn)
 	}
 	sort.Slice(all, func(i, j int) bool { return all[i].String() < all[j].String() })
+	writers := writerSummaries(all)
 	for _, fn := range all {
 		scanned++
 		isInit := fn.Name() == "init" || strings.HasPrefix(fn.Name(), "init#")
@@ -158,6 +297,33 @@ func (w *World) sweep() (scanned int, findings []sweepFinding) {
 				case ssa.CallInstruction:
 					if callee := ins.Common().StaticCallee(); callee != nil {
 						name := callee.String()
+						var wpos []int
+						if ws, ok := externalWriters[name]; ok {
+							wpos = ws
+						} else {
+							for i := range writers[callee] {
+								wpos = append(wpos, i)
+							}
+							sort.Ints(wpos)
+						}
+						for _, i := range wpos {
+							if i >= len(ins.Common().Args) || isInit {
+								continue
+							}
+							arg := ins.Common().Args[i]
+							if g := rootGlobal(arg, 0); g != nil {
+								findings = append(findings, sweepFinding{shortFuncName(fn), "global_write", "hands package-level variable " + g.Name() + " to " + shortFuncName(callee) + ", which writes through it", pos})
+							}
+							if rootReceiver(arg, fn, 0) {
+								if _, isParam := arg.(*ssa.Parameter); !isParam {
+									if pt, ok := types.Unalias(fn.Signature.Recv().Type()).(*types.Pointer); ok {
+										if n, ok := types.Unalias(pt.Elem()).(*types.Named); ok && !perRequestReceivers[n.Obj().Name()] {
+											findings = append(findings, sweepFinding{shortFuncName(fn), "shared_object_write", "hands a field of its long-lived receiver " + n.Obj().Name() + " to " + shortFuncName(callee) + ", which writes through it", pos})
+										}
+									}
+								}
+							}
+						}
 						if why, bad := forbiddenCalls[name]; bad {
 							findings = append(findings, sweepFinding{shortFuncName(fn), "ambient_state", "calls " + name + ": " + why, pos})
 						}
